@@ -8,7 +8,7 @@
 #
 import re
 
-from ural.patterns import QUERY_VALUE_IN_URL_TEMPLATE
+from ural.patterns import QUERY_VALUE_IN_URL_TEMPLATE, CONTROL_CHARS_RE
 from ural.utils import unquote, urljoin
 
 OBVIOUS_REDIRECTS_RE = re.compile(
@@ -37,6 +37,12 @@ def infer_redirection(url, recursive=True):
         string: Redirected url or the original url if nothing was found.
     """
 
+    original_url = url
+
+    # NOTE: hints are searched in the url as it will be cleaned, else a stray
+    # control character can hide (or fake) a redirection
+    url = CONTROL_CHARS_RE.sub("", url).strip()
+
     redirection_split = REDIRECTION_DOMAINS_RE.split(url, 1)
 
     target = None
@@ -52,7 +58,7 @@ def infer_redirection(url, recursive=True):
         if obvious_redirect_match is not None:
             if obvious_redirect_match.group(1) == "q":
                 if "/url?q=" not in url and "/redirect" not in url:
-                    return url
+                    return original_url
 
             potential_target = unquote(obvious_redirect_match.group(2))
 
@@ -74,7 +80,7 @@ def infer_redirection(url, recursive=True):
 
     # NOTE: a relative target can resolve to the url itself
     if target is None or target == url:
-        return url
+        return original_url
 
     if recursive:
         return infer_redirection(target, recursive=True)
